@@ -33,4 +33,27 @@ TEXT = {
         "note": COMMON_NOTE,
         "technique": "Coq proof (sort uniqueness, permutation invariance) on a hand-written model + differential correspondence with the Go code",
     },
+    "C02": {
+        "text": "Theorem C02_roundtrip: for every message/relay chain of the domain wf_msg (all 32 option types of the ParseOption table + unknown codes, ANY nesting depth, any "
+                "number of options) dec_msg (enc_msg m) = Ok (canon_msg m); proved by induction on fuel with one case per option type over shared combinator lemmas; fuel adequacy "
+                "(depth <= encoded length) proved. The table of option codes is regenerated from the Go AST on every run and tied to the model's dispatch table by reflexivity lemmas. "
+                "Real encoder/decoder compared with the model on generated messages; an independent RFC-layout encoder in the harness is the direct oracle for the wire layout.",
+        "note": COMMON_NOTE + "tools/gen (Go AST extractor) is trusted for the table.",
+        "technique": "Coq proof (nested round-trip induction over all option types) + generated dispatch table tie + differential correspondence",
+    },
+    "C05": {
+        "text": "Theorems: decoding is total (error or value, never panic/fuel) for all byte strings; header completeness (4 / 34 octets); options tile the container exactly as TLV "
+                "triples in wire order (iff, C05_tiling); trailing 1..3 octets and overrunning options are errors; unknown codes verbatim; fixed and minimum lengths per type; on every "
+                "well-formed layout the decoder reads the laid-out values (round trip). The model decoder is compared (verdict + full value tree) with FromBytes/ParseOption/DUIDFromBytes "
+                "on exhaustive framings, all truncations/extensions/length perturbations of every known type and mutated messages.",
+        "note": COMMON_NOTE + "The 'accepted implies laid out' direction for DHCPv6 is proved at the framing level (C05_tiling) and per listed type; for the remaining types it rests on the correspondence.",
+        "technique": "Coq proof (totality, framing iff, per-type length lemmas) + differential correspondence against the model as RFC reference decoder",
+    },
+    "C06": {
+        "text": "Theorem C06_fixpoint_v4: for every accepted byte string, encode succeeds, decodes to norm4 of the value (pointwise equal options) and re-encodes to the same bytes; the "
+                "decoder's image is proved inside the encoder's domain. DHCPv6: labels re-emit their original bytes (C06_labels) and the value settles after one trip on the encoder's domain "
+                "(C06_v6_partial). The direct fixpoint oracle b->m1->b1->m2->b2 runs on the real API over non-canonical v4 areas and every out-of-range v6 numeric field.",
+        "note": COMMON_NOTE + "DHCPv6 half: the decoder-image-in-domain step is not yet a theorem for all option types; labelled partial.",
+        "technique": "Coq proof (v4 fixpoint for all accepted inputs; v6 on the encoder's domain) + direct fixpoint oracle + differential correspondence",
+    },
 }
